@@ -61,7 +61,9 @@ SIGS = {
             'mmx': [_sl('m', mode='math'), _sl('m')],
             'mch': [_sl('m', mode='text')],
             'lvi': [_sl('o', '[', ']'), _sl('vl')],
-            'lst': [dict(_sl('m'), legacy=True), _sl('s', '*'), _sl('o', '[', ']'), dict(_sl('m'), legacy=True)],      # declared through the pylatexenc-2 MacroStandardArgsParser
+            'lst': [dict(_sl('m'), legacy=True), _sl('s', '*'), _sl('o', '[', ']'), dict(_sl('m'), legacy=True)],
+            'ltx': [dict(_sl('m', mode='text'), legacy=True), dict(_sl('m'), legacy=True)],      # args_math_mode=[False, None]
+            'lmx': [dict(_sl('m', mode='math'), legacy=True), dict(_sl('m'), legacy=True)],      # args_math_mode=[True, None]      # declared through the pylatexenc-2 MacroStandardArgsParser
         },
         'envs': {
             'ea': dict(sig=[_sl('m')], body=None), 'eo': dict(sig=[_sl('o', '[', ']')], body=None),
@@ -466,6 +468,9 @@ def _arg_mode(slot, mode):
     if slot['mode'] == 'text':
         return (False, None)
     if slot['mode'] == 'math':
+        if slot.get('legacy') and mode[0]:
+            # pylatexenc-2 args_math_mode=True inside a formula: nothing changes, the delimiter of the formula stays recorded
+            return mode
         return (True, None)
     return mode
 
